@@ -189,6 +189,10 @@ pub fn stable_hash<T: Hash>(t: &T) -> u64 {
 }
 
 pub fn runner_for(seed: u64, cases: u32) -> TestRunner {
+    runner_with(seed, cases, 4096)
+}
+
+pub fn runner_with(seed: u64, cases: u32, max_shrink_iters: u32) -> TestRunner {
     let mut bytes = [0u8; 32];
     let mut s = seed;
     for c in bytes.chunks_mut(8) {
@@ -199,7 +203,7 @@ pub fn runner_for(seed: u64, cases: u32) -> TestRunner {
         failure_persistence: None,
         rng_algorithm: RngAlgorithm::ChaCha,
         rng_seed: RngSeed::Fixed(seed),
-        max_shrink_iters: 4096,
+        max_shrink_iters,
         max_global_rejects: 65536,
         max_local_rejects: 65536,
         verbose: 0,
@@ -749,8 +753,10 @@ pub fn guarded<T>(f: impl FnOnce() -> Result<T, Failure>) -> Result<T, Failure> 
         Err(payload) => {
             let (loc, msg) = take_last_panic().unwrap_or(("?".into(), "?".into()));
             if panic_is_harness(&loc) {
-                eprintln!("HARNESS PANIC at {loc}: {msg}");
-                std::panic::resume_unwind(payload);
+                // a bug in the harness is never a verdict about sozu: stop at once, inconclusive
+                let _ = payload;
+                println!("INCONCLUSIVE: harness panic at {loc}: {msg}");
+                std::process::exit(2);
             }
             let short = loc
                 .rsplit_once("/repo/")
@@ -917,6 +923,47 @@ where
     st
 }
 
+/// Child side of an OS-process-sharded (wire-lab) sub-check: run this shard's share of
+/// `total_cases` (plus, in shard 0, the committed regression files or the `--replay` file)
+/// and return the statistics for the parent to merge.
+pub fn run_lab_shard<C, S, F>(args: &Args, id: &str, sub: &str, total_cases: u64, strategy: S, check: F, shrink_iters: u32) -> Stats
+where
+    C: Serialize + DeserializeOwned + Debug + Clone,
+    S: Strategy<Value = C>,
+    F: Fn(&C) -> CheckResult,
+{
+    install_panic_hook();
+    let (i, n) = args.shard.unwrap_or((0, 1));
+    let known_keys: Vec<String> = load_known(id).into_iter().filter(|k| k.status == "known").map(|k| k.key).collect();
+    let mut st = Stats::default();
+    if let Some(path) = &args.replay {
+        if i == 0 {
+            st.merge(replay_one::<C, _>(id, sub, args.seed, path, &known_keys, &check, true));
+        }
+        return st;
+    }
+    if i == 0 {
+        for path in regression_files(id, sub) {
+            st.merge(replay_one::<C, _>(id, sub, args.seed, &path, &known_keys, &check, false));
+        }
+    }
+    let n = n.max(1) as u64;
+    let share = total_cases / n + if (i as u64) < total_cases % n { 1 } else { 0 };
+    if share == 0 {
+        return st;
+    }
+    let seed = derive_seed(args.seed, &format!("{id}/{sub}"), i as u64);
+    let stop = AtomicBool::new(false);
+    LAB_SHRINK_ITERS.with(|c| c.set(shrink_iters));
+    st.merge(run_shard::<C, S, F>(id, sub, args.seed, seed, share, strategy, &known_keys, &check, &stop));
+    LAB_SHRINK_ITERS.with(|c| c.set(0));
+    st
+}
+
+thread_local! {
+    static LAB_SHRINK_ITERS: std::cell::Cell<u32> = const { std::cell::Cell::new(0) };
+}
+
 #[allow(clippy::too_many_arguments)]
 fn run_shard<C, S, F>(
     id: &str,
@@ -937,7 +984,8 @@ where
     let stats = std::cell::RefCell::new(Stats::default());
     let failed = std::cell::Cell::new(false);
     let last_fail: std::cell::RefCell<Option<Failure>> = std::cell::RefCell::new(None);
-    let mut runner = runner_for(seed, cases.min(u32::MAX as u64) as u32);
+    let lab_iters = LAB_SHRINK_ITERS.with(|c| c.get());
+    let mut runner = runner_with(seed, cases.min(u32::MAX as u64) as u32, if lab_iters > 0 { lab_iters } else { 4096 });
     let res = runner.run(&strategy, |case| {
         if stop.load(Ordering::Relaxed) && !failed.get() {
             // another shard found a violation: finish quickly
